@@ -149,6 +149,20 @@ CHECKS = {
         note="Synthesised models follow the normalisations the tool applies on save (format chosen by hash size/splits, 8 s time "
              "granularity, no info/deleted blocks at positions without files, disks recording nothing are unmapped).",
         design="DESIGN.md section 4, C10"),
+    "C20": dict(
+        category="exploration",
+        technique="property-based testing (Hypothesis): list/dup/status/pool outputs compared with the independently parsed content file, the version store and the pool tree",
+        engine="hypothesis-cli",
+        text="Over generated histories and trees with duplicate groups, odd names (spaces, newlines, CR, colons, backslashes, glob "
+             "characters, tag-like text, non-UTF-8) and pre-filled pool directories: list tag lines = recorded files/links (size, mtime, "
+             "nsec), terminal lines unescape to the same names; dup groups = groups of identical fully synced non-empty files, never "
+             "mixing different contents; status summary counters and per-stripe block lines = values computed from the parse; no name "
+             "produces a raw line break in the tag log; pool = one link per recorded sub-path to a recording disk, stale links and empty "
+             "dirs removed, foreign files kept, data disks untouched. One listed known finding (C20-pool-stale-link-over-dir) is "
+             "recognised by signature.",
+        note="Terminal listings are judged for names without line breaks (tag log is the program channel); pool is not judged when a "
+             "sub-path is a file on one disk and a directory on another.",
+        design="DESIGN.md section 4, C20"),
 }
 
 NOT_YET = "check not built yet at this commit (planned in DESIGN.md section 4); not claimed until it runs"
